@@ -543,4 +543,40 @@ MC_INIT
             mc::more_cases(calls - 1, calls - 1);
         flush_notes();
     });
+
+    // (10) ADJACENT PAIRS for the mem* routines: see str_byte_pairs_every_position (0x00 joins the byte set here)
+    mc::add_check("mem_byte_pairs_every_position", [] {
+        init_arenas();
+        int c0 = mc::choose(20 * 20);
+        uint8_t x = c0 / 20 == 19 ? 0 : PAIR_BYTES[c0 / 20], y = c0 % 20 == 19 ? 0 : PAIR_BYTES[c0 % 20];
+        mc::describe("bytes %02x %02x adjacent at positions 0..15 of a 24-byte block of '5's: memchr memrchr memcmp memcpy memmove, both guard placements", x, y);
+        mc::nontrivial();
+        unsigned long c_before = ncalls;
+        for (PL = AFTER; PL <= BEFORE; PL++)
+            for (int p = 0; p < 16; p++)
+            {
+                uint8_t s[32], w[32];
+                memset(s, '5', 24);
+                s[p] = x;
+                s[p + 1] = y;
+                memcpy(w, s, 24);
+                w[p] = y;
+                w[p + 1] = x;
+                t_memchr(s, 24, 24, y, 0);
+                t_memchr(s, 24, 24, x, 0);
+                t_memchr(s, p + 1, 24, y, 0);
+                t_memchr(s, 24, 24, (int)(signed char)y, 0);
+                t_memcmp(s, w, 24, 24, 0, 0);
+                t_memcmp(w, s, 24, 24, 0, 0);
+                t_memcmp(s, w, p + 1, 24, 0, 0);
+                t_copy(false, s, 24, 0, 0);
+                t_copy(true, s, 24, 0, 0);
+                t_move_overlap(s, 16, 1, 0);
+                t_move_overlap(s, 16, -1, 0);
+            }
+        PL = AFTER;
+        unsigned long calls = ncalls - c_before;
+        mc::more_cases(calls - 1, calls - 1);
+        flush_notes();
+    });
 }
